@@ -19,6 +19,7 @@
 -/
 import Gowarc.Model.Reader
 import Gowarc.Lemmas.StreamLemmas
+import Gowarc.Lemmas.KeepHdr
 namespace Gowarc.Props.C06
 open Gowarc
 
@@ -127,6 +128,48 @@ theorem C06_cut_version_line (o : Opts) (Ω : Oracles) (fuel base : Nat) (after 
   refine ⟨⟨base + 0, none, [], some .eof⟩, ?_, rfl, rfl, rfl, ?_⟩
   · rw [readLoop]; simp only [hu]
   · simp [bs]
+
+/-- **visible, anywhere behind the header section**: whatever the header fields and the remaining stream are, if the
+    spec policy is warn or fail and Unmarshal gets as far as returning a record without error, then either the record
+    trailer CR LF CR LF stood completely in the stream right behind the declared block — the record was not cut — or the
+    returned validation contains the trailer finding. (Under fail the trailer site returns the error instead.) -/
+theorem C06_trailer_or_finding (o : Opts) (Ω : Oracles) (vt : Bytes) (vi : Nat) (fs : Fields) (s' : Stream) (st st' : St)
+    (r : Option Rec) (rest : Bytes) (hspec : o.spec ≠ .ignore)
+    (h : unmarshalTail H o Ω vt vi fs s' st = (.ok (r, rest), st')) :
+    ((if contentLengthOf fs < 0 then [] else s'.rest.drop (contentLengthOf fs).toNat).take 4 = crlfcrlf) ∨ Tag.specTrailer ∈ st'.fnd := by
+  unfold unmarshalTail at h
+  obtain ⟨_, s1, h1, g1⟩ := bind_ok _ _ _ _ _ h
+  simp only [M.setHdr_def, Prod.mk.injEq, Except.ok.injEq, true_and] at h1
+  obtain ⟨rt, s2, h2, g2⟩ := bind_ok _ _ _ _ _ g1
+  have k2 : s2.hdr = s1.hdr := by have := (validateHeader_keep o Ω vi).h s1; rw [h2] at this; exact this
+  obtain ⟨hd, s3, h3, g3⟩ := bind_ok _ _ _ _ _ g2
+  simp only [M.hdr_def, Prod.mk.injEq, Except.ok.injEq] at h3
+  obtain ⟨b, s4, h4, g4⟩ := bind_ok _ _ _ _ _ g3
+  obtain ⟨_, s5, h5, g5⟩ := bind_ok _ _ _ _ _ g4
+  obtain ⟨_, s5b, h5b, g6⟩ := bind_ok _ _ _ _ _ g5
+  obtain ⟨_, s6, h6, g7⟩ := bind_ok _ _ _ _ _ g6
+  obtain ⟨hd2, s7, h7, g8⟩ := bind_ok _ _ _ _ _ g7
+  simp only [M.hdr_def, Prod.mk.injEq, Except.ok.injEq] at h7
+  simp only [M.pure_def, Prod.mk.injEq, Except.ok.injEq] at g8
+  have hfs : s1.hdr = fs := by rw [← h1]
+  have hhd : hd = fs := by rw [← h3.1, k2, hfs]
+  rw [hhd] at h6
+  -- the trailer site
+  by_cases htr : ((if contentLengthOf fs < 0 then [] else s'.rest.drop (contentLengthOf fs).toNat).take 4 = crlfcrlf)
+  · exact Or.inl htr
+  · right
+    have hc : ((if contentLengthOf fs < 0 then [] else s'.rest.drop (contentLengthOf fs).toNat).take 4 != crlfcrlf) = true := by
+      simp [htr]
+    rw [hc] at h6
+    simp only [condSite_true] at h6
+    cases hp : o.spec with
+    | ignore => exact absurd hp hspec
+    | fail => rw [hp] at h6; simp at h6
+    | warn =>
+      rw [hp] at h6
+      simp only [site_warn, Prod.mk.injEq, Except.ok.injEq, true_and] at h6
+      rw [← g8.2, ← h7.2, ← h6]
+      simp
 
 end
 
